@@ -102,6 +102,11 @@ func Fetch(
 			return nil
 		}
 
+		// An empty record (i.e. a file that has been created, but not written to yet) has no content to decode
+		if hdr.Size <= 0 {
+			return dstFile.Close()
+		}
+
 		decryptor, err := encryption.Decrypt(tr, pipes.Encryption, crypto.Identity)
 		if err != nil {
 			return err
